@@ -381,17 +381,22 @@ def build(tier, seed):
     bnd = []
     for code in codes:
         for bad in (0.0, -0.3):
-            c = c01.make_case([code], [ms[5]], 1, [0], seed)
-            c['params'][2] = bad
-            bnd.append(c)
-            c = c01.make_case([code, 'G'], [ms[5], ms[3]], 2, [0, 1], seed)
-            c['params'][2] = bad
-            bnd.append(c)
+            # every error parameter in turn on its boundary / outside
+            for k_ in range(rerr.N_PARAMS[code]):
+                c = c01.make_case([code], [ms[5]], 1, [0], seed)
+                c['params'][2 + k_] = bad
+                bnd.append(c)
+                c = c01.make_case([code, 'G'], [ms[5], ms[3]], 2, [0, 1], seed)
+                c['params'][2 + k_] = bad
+                bnd.append(c)
+                c = c01.make_case(['G', code], [ms[5], ms[3]], 2, [0, 1], seed)
+                c['params'][3 + k_] = bad
+                bnd.append(c)
     c = c01.make_case(['G'], [ms[5]], 1, [0], seed, posterior=True)
     c['prior_kind'] = 'uniform_out'
     bnd.append(c)
 
-    kinds = hier.KINDS6 if tier == 'quick' else hier.KINDS10
+    kinds = hier.KINDS10       # every class in both tiers
     max_ids = 2 if tier == 'quick' else 3
     hc = []
     for spec in hier.structures(3, kinds):
@@ -399,6 +404,14 @@ def build(tier, seed):
             c = hier.make_case(spec, n_ids, seed, prior=(n_ids == 2))
             # finite differences on a subset only (cost)
             c['fd'] = (n_ids == 1) or tier == 'thorough' and n_ids == 2
+            hc.append(c)
+    # covariates supplied although the population model has none
+    for spec in [rp.G(3, False), rp.LN(3, False), rp.G(3), rp.P(3),
+                 rp.Comp([rp.G(1, False), rp.LN(2)])]:
+        for n_ids in (1, 2):
+            c = hier.make_case(spec, n_ids, seed)
+            c['extra_cov'] = True
+            c['fd'] = False
             hc.append(c)
     # whole-number vectors in integer form (bare and composed population models)
     for spec in [rp.P(3), rp.G(3), rp.LN(3, False), rp.H(3)] + \
@@ -476,7 +489,12 @@ def build(tier, seed):
     fp = []
     t3 = sorted(vals.reals('c03.ft', 3, 0.2, 3.0, seed))
     fspecs = [rp.Comp([rp.G(1), rp.LN(1, False), rp.P(1)]), rp.G(3),
-              rp.Comp([rp.H(1), rp.LN(2)]), rp.Comp([rp.Cov(rp.G(1)), rp.G(2, False)])]
+              rp.Comp([rp.H(1), rp.LN(2)]), rp.Comp([rp.Cov(rp.G(1)), rp.G(2, False)]),
+              # regular dimensions between / after pooled and heterogeneous blocks
+              rp.Comp([rp.P(1), rp.G(1), rp.P(1)]),
+              rp.Comp([rp.H(1), rp.LN(1), rp.P(1)]),
+              rp.Comp([rp.P(1), rp.LN(1, False), rp.H(1)]),
+              rp.Comp([rp.P(1), rp.H(1), rp.G(1)])]
     for spec in fspecs:
         for filt in (('G', 2), ('GKDE', 2), ('LN', 2),
                      [('G', 1, 2), ('GKDE', 2, 2)], [('LN', 2, 2), ('G', 1, 2)]):
